@@ -193,7 +193,9 @@ static void gen_c13(Plan& p, Rng& r) {
             if (c < 4) o.n["fd_live"] = r.below(8); else if (c < 7) o.n["fd_closed"] = r.below(4); else if (c < 8) o.n["fd_never"] = r.below(3); else o.n["fd"] = o.name == "fd_read" ? 0 : 1 + (int64_t)r.below(2);
             o.iov = {(uint32_t)(1 + r.below(40))};
             p.ops.push_back(o);
-        } else if (k < 92) { Op o = mkop("readdir", r); if (r.below(2)) o.n["fd_dir"] = r.below(6); else o.n["fd_closed"] = r.below(4); o.n["buflen"] = 200; o.n["resume"] = 0; o.n["restart"] = 0; p.ops.push_back(o); }
+        } else if (k < 92) { Op o = mkop("readdir", r); if (r.below(2)) o.n["fd_dir"] = r.below(6); else o.n["fd_closed"] = r.below(4); o.n["buflen"] = 200; o.n["resume"] = 0; o.n["restart"] = 0;
+            if (faults && r.below(3) == 0) { o.fault = r.below(2) ? "opendir_emfile" : "readdir_eio"; o.fault_nth = 1; }
+            p.ops.push_back(o); }
         else { Op o = mkop(r.below(2) ? "fd_filestat_get" : "fd_tell", r); if (r.below(2)) o.n["fd_closed"] = r.below(4); else o.n["fd_live"] = r.below(8); p.ops.push_back(o); }
     }
 }
@@ -263,7 +265,7 @@ static void gen_c15(Plan& p, Rng& r) {
         uint32_t k = r.below(100);
         if (k < 15) p.ops.push_back(mkop("args", r));
         else if (k < 30) p.ops.push_back(mkop("environ", r));
-        else if (k < 55) { Op o = mkop(r.below(4) == 0 ? "clock_res_get" : "clock_time_get", r); static const int64_t ids[] = {0, 1, 0, 1, 1, 2, 3, 4, 5, 0xFFFFFFFFll, 100}; o.n["id"] = ids[r.below(11)]; o.n["precision"] = r.below(2) ? 0 : 1000;
+        else if (k < 55) { Op o = mkop(r.below(4) == 0 ? "clock_res_get" : "clock_time_get", r); static const int64_t ids[] = {0, 1, 0, 1, 1, 2, 3, 4, 5, 0xFFFFFFFFll, 100}; o.n["id"] = ids[r.below(11)]; { static const int64_t pr[] = {0, 1, 1000, 1000000, 10000000, 1000000000ll}; o.n["precision"] = pr[r.below(6)]; }
             if (o.name == "clock_time_get" && o.n["id"] < 4 && r.below(10) == 0) { o.fault = "clock_fail"; o.fault_nth = 1; o.fault_param = r.below(2) ? EINVAL : EPERM; }
             p.ops.push_back(o); }
         else if (k < 75) { Op o = mkop("random_get", r); static const int64_t ln[] = {0, 1, 7, 255, 256, 257, 1000, 4096, 65536, 1 << 20}; o.n["len"] = ln[r.below(r.below(3) == 0 ? 10 : 8)]; if (r.below(6) == 0) { o.fault = "getentropy_enosys"; o.fault_nth = 1; } p.ops.push_back(o); }
